@@ -9,6 +9,15 @@
 //	xp <start> <init> <hist> <tip> <h> <ownBits> <preBits> <pos> <view|noqc> <entry>...
 //	td <start> <init> <hist> <terms> <h> <ownBits> <preBits> <term> <pos> <view|noqc> <entry>...
 //	     -> accept | reject
+//	xpf <fault> <xp line...>  /  tdf <fault> <td line...>
+//	     the same check with a storage fault: fault = g<k> the k-th Get of a snapshot reader made by the check fails,
+//	     s<k> the k-th CreateSnapshot fails.  -> reject (no validator record, no set to accept under); `-` when the check
+//	     makes fewer reads
+//	tdt <reps> <extras> <td line...>
+//	     the same check over an election record with TIED ballots: the nominees are the recorded set plus <extras>; an
+//	     elected member ties with its successor / a refused nominee ties with the last elected member wherever the address
+//	     order (larger address first) keeps the recorded list the result; evaluated <reps> times on the cached instance and
+//	     on fresh ones.  -> accept | reject | unstable (the evaluations disagree)
 //
 //	start   StartHeight of the consensus instance
 //	init    configured initial validators, e.g. 0,1,2,3 (account numbers)
@@ -485,12 +494,97 @@ func tdWellFormed(start int64, K int, terms []int64) bool {
 	return true
 }
 
-func tdInst(start int64, init []int, hist []edit, terms []int64) *inst {
+// tdTieState: the election record of a recorded set s = [s0 .. sK-1] with as many TIES as the address order allows and
+// the extras as further nominees.  Equal ballots are broken by the address string, larger first: s[i] ties with s[i+1]
+// when its address is the larger one (otherwise it holds one ballot more), an extra ties with the LAST elected member
+// when its address is the smaller one (otherwise it holds one ballot less).  The elected list is s, in that order.
+func tdTieState(hist []edit, extras []int) stateFn {
+	return func(h int64, bucket, key string) ([]byte, bool) {
+		if bucket != "$xpos" {
+			return nil, false
+		}
+		s, ok := recordedAt(hist, h)
+		if !ok {
+			return nil, false
+		}
+		ballots := map[string]int64{}
+		b := int64(100)
+		for i := len(s) - 1; i >= 0; i-- {
+			if i < len(s)-1 && acct(s[i]).Address < acct(s[i+1]).Address {
+				b++
+			}
+			ballots[acct(s[i]).Address] = b
+		}
+		last := acct(s[len(s)-1]).Address
+		for _, x := range extras {
+			if acct(x).Address < last {
+				ballots[acct(x).Address] = 100
+			} else {
+				ballots[acct(x).Address] = 99
+			}
+		}
+		if key == "xpos_0_nominate" {
+			m := map[string]map[string]int64{}
+			for a := range ballots {
+				m[a] = map[string]int64{a: 1}
+			}
+			v, _ := json.Marshal(m)
+			return v, true
+		}
+		for a, n := range ballots {
+			if key == "xpos_0_vote_"+a {
+				// two voters: the sum counts
+				v, _ := json.Marshal(map[string]int64{"voter": n - 40, "voter2": 40})
+				return v, true
+			}
+		}
+		return nil, false
+	}
+}
+
+// retire stops a fresh instance later (its constructor starts the Smr in a goroutine of its own: stopping right away
+// would race with that start, which is not what is under test here)
+var retired []*inst
+
+func retire(i *inst) {
+	retired = append(retired, i)
+	if len(retired) > 64 {
+		retired[0].impl.Stop()
+		retired = retired[1:]
+	}
+}
+
+func tdTieInst(start int64, init []int, hist []edit, terms []int64, extras []int, useCache bool) *inst {
+	st := tdTieState(hist, extras)
+	if useCache {
+		return tdInst(start, init, hist, terms, &tieCfg{extras, st})
+	}
+	return tdBuild(start, init, hist, terms, &tieCfg{extras, st})
+}
+
+type tieCfg struct {
+	extras []int
+	state  stateFn
+}
+
+func tdInst(start int64, init []int, hist []edit, terms []int64, tie *tieCfg) *inst {
 	key := fmt.Sprintf("td %d %s %s %s", start, setStr(init), histStr(hist), termsStr(terms))
-	return cached(key, func() *inst {
+	if tie != nil {
+		key += " tie " + setStr(tie.extras)
+	}
+	return cached(key, func() *inst { return tdBuild(start, init, hist, terms, tie) })
+}
+
+func tdBuild(start int64, init []int, hist []edit, terms []int64, tie *tieCfg) *inst {
+	key := fmt.Sprintf("td %d %s %s %s", start, setStr(init), histStr(hist), termsStr(terms))
+	{
 		ck := fmt.Sprintf("td %d %s %s", start, setStr(init), histStr(hist))
 		K := len(init)
-		l := newStubLedger(tdState(hist))
+		state := tdState(hist)
+		if tie != nil {
+			state = tie.state
+		}
+		l := newStubLedger(state)
 		idx := map[int64]int64{}
 		for h := int64(0); h < int64(len(terms)); h++ {
 			b := &blk{proposer: acct(init[0]).Address, height: h, id: blockID(ck, h)}
@@ -521,7 +615,7 @@ func tdInst(start int64, init []int, hist []edit, terms []int64) *inst {
 			panic("NewTdposConsensus returned nil for " + key)
 		}
 		return &inst{impl: impl, l: l, chainKey: ck}
-	})
+	}
 }
 
 // ------------------------------------------------------------------ one candidate block
@@ -538,6 +632,15 @@ type cand struct {
 	noqc             bool
 	view, cert       int64 // declared view; height of the certified ledger block (the TRUE view of the certificate)
 	es               []entry
+	// xpf / tdf: storage fault injected for the duration of the check (g<k>: the k-th snapshot Get fails, s<k>: the k-th CreateSnapshot)
+	faultKind byte
+	faultAt   int
+	// tdt: the election record holds TIES (as many as the address order allows) and `extras` as further nominees;
+	// the check is evaluated `reps` times
+	tie    bool
+	reps   int
+	extras []int
+	fired  bool // the injected fault was reached by the check
 }
 
 func parse(line string) (*cand, bool) {
@@ -545,6 +648,46 @@ func parse(line string) (*cand, bool) {
 	c := &cand{}
 	if len(w) == 0 {
 		return nil, false
+	}
+	switch w[0] {
+	case "xpf", "tdf":
+		// <fault> then the xp / td line
+		if len(w) < 3 || len(w[1]) < 2 || (w[1][0] != 'g' && w[1][0] != 's') {
+			return nil, false
+		}
+		k, err := strconv.Atoi(w[1][1:])
+		if err != nil || k < 1 || k > 1000 {
+			return nil, false
+		}
+		c, ok := parse(strings.TrimSuffix(w[0], "f") + " " + strings.Join(w[2:], " "))
+		if !ok || c.faultKind != 0 || c.tie {
+			return nil, false
+		}
+		c.faultKind, c.faultAt = w[1][0], k
+		return c, true
+	case "tdt":
+		// <reps> <extras> then the td line
+		if len(w) < 4 {
+			return nil, false
+		}
+		reps, err := strconv.Atoi(w[1])
+		extras, ok := parseSet(w[2])
+		if err != nil || reps < 1 || reps > 10000 || !ok {
+			return nil, false
+		}
+		c, ok := parse("td " + strings.Join(w[3:], " "))
+		if !ok {
+			return nil, false
+		}
+		for _, e := range c.hist {
+			for _, x := range extras {
+				if contains(e.set, x) {
+					return nil, false
+				}
+			}
+		}
+		c.tie, c.reps, c.extras = true, reps, extras
+		return c, true
 	}
 	c.kind = w[0]
 	var rest []string
@@ -670,10 +813,13 @@ func exec(line string, out *xvlib.Out) (res string) {
 		}
 	}()
 	var in *inst
-	if c.kind == "xp" {
+	switch {
+	case c.kind == "xp":
 		in = xpInst(c.start, c.init, c.hist, c.tip)
-	} else {
-		in = tdInst(c.start, c.init, c.hist, c.terms)
+	case c.tie:
+		in = tdTieInst(c.start, c.init, c.hist, c.terms, c.extras, true)
+	default:
+		in = tdInst(c.start, c.init, c.hist, c.terms, nil)
 	}
 	own, ownOK := c.ownSet()
 	// proposer and timestamp for the slot
@@ -698,42 +844,87 @@ func exec(line string, out *xvlib.Out) (res string) {
 	} else {
 		ts = tdTs(len(c.init), c.term, c.pos, tdBlockNum-1)
 	}
-	pre := in.l.chain[c.h-1]
-	candID := blockID(in.chainKey+"/cand", c.h)
-	var justify *bft.QuorumCert
-	if !c.noqc {
-		certID := in.l.chain[c.cert].id
-		vi := &bft.VoteInfo{ProposalId: certID, ProposalView: c.view}
-		if c.cert >= 1 {
-			vi.ParentId, vi.ParentView = in.l.chain[c.cert-1].id, c.view-1
+	once := func(in *inst) string {
+		pre := in.l.chain[c.h-1]
+		candID := blockID(in.chainKey+"/cand", c.h)
+		var justify *bft.QuorumCert
+		if !c.noqc {
+			certID := in.l.chain[c.cert].id
+			vi := &bft.VoteInfo{ProposalId: certID, ProposalView: c.view}
+			if c.cert >= 1 {
+				vi.ParentId, vi.ParentView = in.l.chain[c.cert-1].id, c.view-1
+			}
+			justify = &bft.QuorumCert{VoteInfo: vi}
+			for _, e := range c.es {
+				justify.SignInfos = append(justify.SignInfos, mkSign(e, certID, candID))
+			}
 		}
-		justify = &bft.QuorumCert{VoteInfo: vi}
-		for _, e := range c.es {
-			justify.SignInfos = append(justify.SignInfos, mkSign(e, certID, candID))
+		b := &blk{proposer: acct(colAcct).Address, height: c.h, id: candID, pre: pre.id, ts: ts}
+		if c.kind == "xp" {
+			b.storage = storage(justify, 0, 0, c.ownBits)
+		} else {
+			b.storage = storage(justify, c.term, tdBlockNum-1, c.ownBits)
 		}
+		// the predecessor's rollback marker
+		saved := pre.storage
+		if c.preB != 0 && c.h-1 >= c.start {
+			st, _ := ccommon.ParseOldQCStorage(pre.storage)
+			st.TargetBits = int32(c.preB)
+			pre.storage, _ = json.Marshal(st)
+		}
+		in.l.snapsAt = in.l.snapsAt[:0]
+		in.l.gets, in.l.snaps, in.l.fired = 0, 0, false
+		in.l.failGet, in.l.failSnap = 0, 0
+		switch c.faultKind {
+		case 'g':
+			in.l.failGet = c.faultAt
+		case 's':
+			in.l.failSnap = c.faultAt
+		}
+		okm, err := in.impl.CheckMinerMatch(logCtx, b)
+		in.l.failGet, in.l.failSnap = 0, 0
+		pre.storage = saved
+		if okm && err == nil {
+			return "accept"
+		}
+		return "reject"
 	}
-	b := &blk{proposer: acct(colAcct).Address, height: c.h, id: candID, pre: pre.id, ts: ts}
-	if c.kind == "xp" {
-		b.storage = storage(justify, 0, 0, c.ownBits)
-	} else {
-		b.storage = storage(justify, c.term, tdBlockNum-1, c.ownBits)
-	}
-	// the predecessor's rollback marker
-	saved := pre.storage
-	if c.preB != 0 && c.h-1 >= c.start {
-		st, _ := ccommon.ParseOldQCStorage(pre.storage)
-		st.TargetBits = int32(c.preB)
-		pre.storage, _ = json.Marshal(st)
-	}
-	in.l.snapsAt = in.l.snapsAt[:0]
-	okm, err := in.impl.CheckMinerMatch(logCtx, b)
-	pre.storage = saved
-	res = "reject"
-	if okm && err == nil {
-		res = "accept"
+	res = once(in)
+	c.fired = in.l.fired
+	if c.faultKind != 0 && !in.l.fired {
+		// the check made fewer reads than the fault's ordinal: nothing was injected, the line says nothing new
+		if out != nil {
+			oracle(c, line, res, own, ownOK, colAcct, out)
+		}
+		return "-"
 	}
 	if out != nil {
 		oracle(c, line, res, own, ownOK, colAcct, out)
+	}
+	if c.tie {
+		// the set in force for a view is ONE set: the verdict on the same block over the same chain is the same at every
+		// evaluation, on this instance and on fresh ones (another node, a restarted node)
+		for i := 1; i < c.reps; i++ {
+			use := in
+			if i%8 == 0 {
+				use = tdTieInst(c.start, c.init, c.hist, c.terms, c.extras, false)
+			}
+			r := once(use)
+			if use != in {
+				retire(use)
+			}
+			if out != nil {
+				oracle(c, line, r, own, ownOK, colAcct, out)
+			}
+			if r != res {
+				if out != nil {
+					out.Violate(xvlib.Violation{Key: "verdict-varies-between-evaluations",
+						What: fmt.Sprintf("%s CheckMinerMatch answered %s at evaluation 1 and %s at evaluation %d for the same block on the same chain: the validator set in force for view %d is not one set (tied ballots in the election record)", c.kind, res, r, i+1, c.cert),
+						Ops:  []string{line}, Impl: []string{res, r}})
+				}
+				return "unstable"
+			}
+		}
 	}
 	return res
 }
@@ -752,7 +943,7 @@ func oracle(c *cand, line, res string, own []int, ownOK bool, col int, out *xvli
 	}
 	if c.h <= c.start {
 		// the first block of the instance carries no certificate
-		if !accepted {
+		if !accepted && !c.fired {
 			viol("start-block-rejected", fmt.Sprintf("%s CheckMinerMatch rejected the block of height %d <= StartHeight %d of the entitled proposer (no certificate is due there)", c.kind, c.h, c.start))
 		}
 		return
@@ -826,7 +1017,8 @@ func oracle(c *cand, line, res string, own []int, ownOK bool, col int, out *xvli
 		viol(key, fmt.Sprintf("%s CheckMinerMatch accepted block %d whose certificate (for block %d, declared view %d) carries %d distinct valid members besides the collector of the set in force for view %d (%s); %d required (n=%d)",
 			c.kind, c.h, c.cert, c.view, len(others), c.cert, setStr(S), q, n))
 	}
-	if !accepted && allValid && !memberInvalid && len(others) >= q && c.view == c.h-1 && c.cert == c.h-1 {
+	// (a check that could not read the validator record has no set to accept under: its refusal is not judged)
+	if !accepted && !c.fired && allValid && !memberInvalid && len(others) >= q && c.view == c.h-1 && c.cert == c.h-1 {
 		viol("genuine-quorum-rejected", fmt.Sprintf("%s CheckMinerMatch rejected block %d of the entitled proposer although its certificate carries %d >= %d distinct valid members besides the collector of the set in force for view %d (%s)",
 			c.kind, c.h, len(others), q, c.cert, setStr(S)))
 	}
@@ -900,6 +1092,48 @@ func sameSet(a, b []int) bool {
 type gen struct {
 	rng *xvlib.Rng
 	run func(class, line string)
+	// tdposAround: the line's leading words (`td`, or `tdt <reps> <extras>`), the other set in play when given, and
+	// how often a candidate is also presented with storage faults (1 in faultEvery; 0: never)
+	tdLead     string
+	tdOther    []int
+	faultEvery int
+}
+
+// faulted presents the candidate described by prefix (an xp / td prefix up to <pos>) with a storage fault at each of the
+// first reads of the check - the k-th Get of a snapshot reader, the k-th CreateSnapshot - and a quorum of every set a
+// lookup that carries on after the failed read could land on (initial, tip state, block's own, recorded) and of the set
+// in force itself: a check that cannot read the validator record has no set to check against.
+func (g *gen) faulted(prefix string, view int64, S []int, col int, alts []namedSet, maxReads int) {
+	w := strings.SplitN(prefix, " ", 2)
+	lead := w[0] + "f"
+	faults := []string{"g1", "g2", "s1", "s2"}
+	for k := 3; k <= maxReads; k++ {
+		if maxReads <= 3 || g.rng.Chance(1, 2) {
+			faults = append(faults, fmt.Sprintf("g%d", k))
+		}
+	}
+	sets := append([]namedSet{{"in-force", S}}, alts...)
+	var done [][]int
+	for _, alt := range sets {
+		if alt.set == nil {
+			continue
+		}
+		dup := false
+		for _, d := range done {
+			dup = dup || sameSet(d, alt.set)
+		}
+		if dup {
+			continue
+		}
+		done = append(done, alt.set)
+		es := toks(take(g.shuffled(but(alt.set, col)), quorum(len(alt.set))), "v")
+		if len(es) == 0 {
+			es = toks(alt.set, "v")
+		}
+		for _, f := range faults {
+			g.run("h:fault/"+f[:1]+"/"+alt.name, strings.TrimSpace(fmt.Sprintf("%s %s %s %d %s", lead, f, w[1], view, strings.Join(es, " "))))
+		}
+	}
 }
 
 func (g *gen) shuffled(s []int) []int {
@@ -1126,6 +1360,10 @@ func (g *gen) xpoaCandidate(start int64, init []int, hist []edit, tip, h, ownBit
 		return
 	}
 	g.certificates(prefix, h-1, S, O, own[pos])
+	if h > start && g.faultEvery > 0 && g.rng.Intn(g.faultEvery) == 0 {
+		c := &cand{kind: "xp", start: start, init: init, hist: hist, tip: tip, h: h, ownBits: ownBits, preB: preBits, view: h - 1, cert: h - 1}
+		g.faulted(prefix, h-1, S, own[pos], c.altSets(own), 3)
+	}
 	if h > start {
 		g.mislabelled(prefix, h, tip, own[pos], func(v int64) ([]int, bool) {
 			b := int64(0)
@@ -1257,8 +1495,19 @@ func (g *gen) tdposAround(start int64, init []int, hist []edit, changes []int64,
 					O = hist[len(hist)-1].set
 				}
 			}
-			prefix := fmt.Sprintf("td %d %s %s %s %d 0 0 %d %d", start, setStr(init), histStr(hist), termsStr(terms), h, term, pos)
+			lead := g.tdLead
+			if lead == "" {
+				lead = "td"
+			}
+			if g.tdOther != nil && !sameSet(g.tdOther, S) {
+				O = g.tdOther
+			}
+			prefix := fmt.Sprintf("%s %d %s %s %s %d 0 0 %d %d", lead, start, setStr(init), histStr(hist), termsStr(terms), h, term, pos)
 			g.certificates(prefix, h-1, S, O, own[pos])
+			if h > start && lead == "td" && g.faultEvery > 0 && g.rng.Intn(g.faultEvery) == 0 {
+				c := &cand{kind: "td", start: start, init: init, hist: hist, tip: tip, terms: terms, h: h, term: term, view: h - 1, cert: h - 1}
+				g.faulted(prefix, h-1, S, own[pos], c.altSets(own), 2*K+2)
+			}
 			if h > start {
 				g.mislabelled(prefix, h, tip, own[pos], func(v int64) ([]int, bool) {
 					if v > h-1 {
@@ -1321,13 +1570,16 @@ func main() {
 	// corpus first
 	for _, f := range corpusFiles() {
 		for _, l := range xvlib.ReadLines(f) {
-			if strings.HasPrefix(l, "xp ") || strings.HasPrefix(l, "td ") {
+			if strings.HasPrefix(l, "xp ") || strings.HasPrefix(l, "td ") || strings.HasPrefix(l, "xpf ") || strings.HasPrefix(l, "tdf ") || strings.HasPrefix(l, "tdt ") {
 				run("corpus", l)
 			}
 		}
 	}
-	g := &gen{rng: xvlib.NewRng(args.Seed), run: run}
+	g := &gen{rng: xvlib.NewRng(args.Seed), run: run, faultEvery: 6}
 	thorough := args.Tier == "thorough"
+	if thorough {
+		g.faultEvery = 2
+	}
 	// 1. xpoa: one edit at height E, every tip from before the edit until well after it became effective
 	sizes := []int{1, 2, 3, 4, 5, 7}
 	editAt := []int64{3, 5}
@@ -1425,8 +1677,40 @@ func main() {
 		}
 		g.tdposAround(start, seq(0, n), hist, []int64{F, F2}, span(maxi(F-2, start-1), F2+3))
 	}
+	// 5. tdpos: election records with TIED ballots (at the cut between the last elected and the first refused nominee,
+	// and among the elected), every check evaluated many times on the cached and on fresh instances
+	tieSizes, reps := []int{1, 2, 3, 4}, 40
+	if thorough {
+		tieSizes, reps = []int{1, 2, 3, 4, 5, 6}, 200
+	}
+	g.faultEvery = 0
+	for _, n := range tieSizes {
+		for variant := 0; variant < 3; variant++ {
+			pool := seq(10, n+2)
+			if variant == 1 {
+				pool = seq(0, n+2) // overlaps the initial set
+			}
+			sort.Slice(pool, func(i, j int) bool { return acct(pool[i]).Address > acct(pool[j]).Address })
+			set, extras := append([]int{}, pool[:n]...), append([]int{}, pool[n:]...) // every nominee holds the same ballots
+			if variant == 2 {
+				// elected in another order (ties only where the address order allows), one refused nominee tied, one not
+				set = g.shuffled(append(append([]int{}, pool[1:n]...), pool[n]))
+				extras = []int{pool[0], pool[n+1]}
+			}
+			F := int64(6 + g.rng.Intn(3))
+			E := F - 4 - int64(g.rng.Intn(2))
+			g.tdLead = fmt.Sprintf("tdt %d %s", reps, setStr(extras))
+			// the set the election yields when the tie at the cut falls the other way
+			g.tdOther = append(append([]int{}, set[:maxi(int64(n)-int64(len(extras)), 0)]...), extras...)
+			if len(g.tdOther) > n {
+				g.tdOther = g.tdOther[len(g.tdOther)-n:]
+			}
+			g.tdposAround(1, seq(0, n), []edit{{E, set}}, []int64{F}, span(F-1, F+2))
+		}
+	}
+	g.tdLead, g.tdOther = "", nil
 	out.Stats.Exhaustive = false
-	out.Stats.Rule = fmt.Sprintf("chains with validator-set edits (7 variants of the new set: disjoint, shifted, grown, shrunk, one swapped, rotated, bigger) for n in %v; for every tip height from 2 blocks before the edit to 6 after it (tdpos: around the first block of the next two terms, edits 2..5 blocks before it) the candidate at tip+1 (1/3: also a competing block at tip or tip-1) is presented to the real CheckMinerMatch with 15 classes of justify certificate built from the set in force for the certified view and the other set in play; for every such tip also the candidate whose predecessor carries each of 10 rollback markers (around its height, earlier, tip+3 = the last the ledger resolves, tip+4 and far beyond = no set in force, at / below StartHeight+2 = initial set) with a quorum of the marker's set, of the other set in play and of the initial set, or, when the marker cannot be resolved, with a quorum / all members of every set a lookup could fall back to (initial, tip state, without the marker, the block's own, recorded), and the candidate whose own marker cannot be resolved (proposer = the slot's member of the initial set); plus %d+%d randomised chains (two edits, later StartHeight, the same marker choices on both blocks) and the StartHeight exemption; every op line is a case", sizes, rounds, tdRounds)
+	out.Stats.Rule = fmt.Sprintf("chains with validator-set edits (7 variants of the new set: disjoint, shifted, grown, shrunk, one swapped, rotated, bigger) for n in %v; for every tip height from 2 blocks before the edit to 6 after it (tdpos: around the first block of the next two terms, edits 2..5 blocks before it) the candidate at tip+1 (1/3: also a competing block at tip or tip-1) is presented to the real CheckMinerMatch with 15 classes of justify certificate built from the set in force for the certified view and the other set in play; for every such tip also the candidate whose predecessor carries each of 10 rollback markers (around its height, earlier, tip+3 = the last the ledger resolves, tip+4 and far beyond = no set in force, at / below StartHeight+2 = initial set) with a quorum of the marker's set, of the other set in play and of the initial set, or, when the marker cannot be resolved, with a quorum / all members of every set a lookup could fall back to (initial, tip state, without the marker, the block's own, recorded), and the candidate whose own marker cannot be resolved (proposer = the slot's member of the initial set); plus %d+%d randomised chains (two edits, later StartHeight, the same marker choices on both blocks) and the StartHeight exemption; storage faults (xpf / tdf, 1 candidate in 6): the k-th snapshot Get / CreateSnapshot of the check fails, with a quorum of the set in force and of every set a lookup that carries on could land on (initial, tip state, block's own, recorded): nothing may be accepted; tied ballots (tdt): election records in which all nominees / the last elected and a refused nominee hold equal ballots (n = %v, three variants), each check evaluated %d times on the cached and on fresh instances: same verdict every time, judged against the address-ordered tie-break; every op line is a case", sizes, rounds, tdRounds, tieSizes, reps)
 }
 
 func maxi(a, b int64) int64 {
